@@ -139,9 +139,17 @@ def run_A(item, rec):
                 else:
                     tval = symx.sym_real("target_overhead", 1, 4)
                     kw = dict(target_overhead=tval)
-                sf = SL.SliceFinder(tree0, temperature=temp, allow_outer=outer, seed=rng, **kw)
+                how = ["ctor", "call"][symx.choose("how", 2)]
+                if how == "ctor":
+                    sf = SL.SliceFinder(tree0, temperature=temp, allow_outer=outer, seed=rng, **kw)
+                    skw = {}
+                else:
+                    # the finder is built with a loose target, the requested one is given per call to search()
+                    loose = {"size": dict(target_size=max(2, tree0.max_size())), "slices": dict(target_slices=1), "overhead": dict(target_overhead=8.0)}[kind]
+                    sf = SL.SliceFinder(tree0, temperature=temp, allow_outer=outer, seed=rng, **loose)
+                    skw = kw
                 try:
-                    ix_sl, cost = sf.search(max_repeats)
+                    ix_sl, cost = sf.search(max_repeats, **skw)
                 except (symx.PathAbort, symx.Unsupported, symx.Budget):
                     raise
                 except (RuntimeError, ValueError, KeyError) as e:
@@ -152,8 +160,8 @@ def run_A(item, rec):
                 bad_conc = any(b is True or (isinstance(b, bool) and b) for b in bads)
 
                 def viol(m):
-                    return dict(case=dict(case, max_repeats=max_repeats), ix_sl=sorted(ix_sl), predicted=dict(size=cost.size, flops=cost.flops, nslices=cost.nslices),
-                                actual=act, target=float(symx.eval_model(m, tval)), signature=["C07A", case["inputs"], case["pre"], kind, str(outer), sorted(ix_sl)])
+                    return dict(case=dict(case, max_repeats=max_repeats, how=how), ix_sl=sorted(ix_sl), predicted=dict(size=cost.size, flops=cost.flops, nslices=cost.nslices),
+                                actual=act, target=float(symx.eval_model(m, tval)), signature=["C07A", case["inputs"], case["pre"], kind, str(outer), how, sorted(ix_sl)])
 
                 rec.refute(ctx, z3.Or(z3.BoolVal(bool(bad_conc)), tb), "prediction == sliced tree and target honoured", viol)
                 return tuple(sorted(ix_sl))
